@@ -236,7 +236,7 @@ func handleViolations(spec *Spec, ev *Evidence, viols []*Violation) (int, string
 				replayTimeScale = 1
 				lastOut = out
 			}
-			if !strings.HasPrefix(res[id], "CONFIRMED") && i < 3 {
+			if !strings.HasPrefix(res[id], "CONFIRMED") {
 				// racing events: natively the scheduler almost always picks one order; ask the harness
 				// for the other one
 				replayRace = true
